@@ -152,6 +152,24 @@ def load_ledger():
         return {}
 
 
+def assume_sites(task_modules):
+    """mechanical scan of the contract modules used by a check: every place where a contract ASSUMES a fact (precondition of the
+    function under contract, postcondition of a summarised callee, definitional axiom of a specification function, instance of a separately
+    proved lemma, case split).  Listed in the evidence so that nothing assumed stays implicit."""
+    out = []
+    mods = set(task_modules) | {'contracts.common'}
+    for m in sorted(mods):
+        path = os.path.join(VERIF, *m.split('.')) + '.py'
+        try:
+            with open(path) as f:
+                for no, line in enumerate(f, 1):
+                    if '.assume(' in line and not line.lstrip().startswith('#'):
+                        out.append('%s:%d: %s' % (os.path.relpath(path, VERIF), no, line.strip()[:160]))
+        except OSError:
+            pass
+    return out
+
+
 def file_hashes():
     from pyvc import extract
     out = {}
@@ -319,6 +337,7 @@ def run_property(prop, contract_module, tier='quick', seed=0, procs=None, extra_
                           known_finding=(e['known'] or {}).get('id')) for e in seen.values()],
             known_findings=[l for l in kf_lines],
             ledger=dict(ids_expected=len(led or []), missing=missing),
+            assume_sites=assume_sites({t.module for t in tasks}),
             bounded_clauses=[dict(clause=a['name'], evaluations=a['instances'], passed=a['discharged'],
                                   note='BOUNDED stand-in: run-time check of the contract on generated inputs; not counted in obligations/discharged')
                              for a in records.values() if a['kind'] == 'bounded'],
